@@ -514,6 +514,16 @@ def check_directed(ck):
                 tag = env_tag(impl.legacy)
                 ck.run.violation(tag + f"flatten({arg})", f"textbook: {tag}flatten({arg}) gives {show(a)}, the members that are lists "
                                  f"spliced in and everything else kept is {want}", {"kind": "directed", "legacy": impl.legacy})
+    # the other means of the Stat module are functions of prod / sum / length: reachable in both environments
+    for src, want in (("geometric_mean([1, 4])", "2.0"), ("geometric_mean([4, 1])", "2.0"), ("round(geometric_mean([54, 24, 36]), 1)", "36.0"),
+                      ("round(harmonic_mean([40, 60]), 1)", "48.0"), ("round(harmonic_mean([60, 40]), 1)", "48.0")):
+        for impl in ck.impls:
+            ck.nchecks += 1
+            n += 1
+            a, b = impl.call(src), impl.call(want)
+            if a[0] != "val" or b[0] != "val" or not absval.strict_eq(a[1], b[1]):
+                tag = env_tag(impl.legacy)
+                ck.run.violation(tag + src, f"textbook: {tag}{src} gives {show(a)}, expected {want}", {"kind": "directed", "legacy": impl.legacy})
     for arg, total, k in sum_cases():
         ck.expect(f"sum({arg})", numwant(total, True, Fraction(0)), "textbook")
         ck.expect(f"mean({arg})", numwant(total / k, Fraction(float(total / k)) == total / k, abs(total) / k * E9), "textbook")
